@@ -16,6 +16,9 @@ mod itemset;
 mod pager;
 mod stategraph;
 pub mod statetable;
+#[cfg(grmtools_verif)]
+#[doc(hidden)]
+pub mod verif_hooks;
 
 pub use crate::{
     stategraph::StateGraph,
